@@ -36,23 +36,21 @@ package render
 //@ method RenderChildren
 //@ requires args: arg0 != nil
 //@ assigns *
-//@ ensures onlyw: forall(x, "Val", x != arg0 && x != wsink(arg0) && !newbuf(x) ==> wtotal(x) == old(wtotal(x)))
+//@ ensures onlyw: forall(x, "Val", x != arg0 && x != wsink(arg0) && !newbuf(x) && !is(x, *render.trimWriter) ==> wtotal(x) == old(wtotal(x)))
 //@ ensures tree: @tree
 //@ method RenderBlock
 //@ requires args: arg0 != nil && arg1 != nil
 //@ assigns *
-//@ ensures onlyw: forall(x, "Val", x != arg0 && x != wsink(arg0) && !newbuf(x) ==> wtotal(x) == old(wtotal(x)))
+//@ ensures onlyw: forall(x, "Val", x != arg0 && x != wsink(arg0) && !newbuf(x) && !is(x, *render.trimWriter) ==> wtotal(x) == old(wtotal(x)))
 //@ ensures tree: @tree
 //@ method InnerString
 //@ assigns *
 //@ ensures outputElsewhere: forall(x, "Val", !newbuf(x) && !is(x, *render.trimWriter) ==> wtotal(x) == old(wtotal(x)))
-//@ ensures buffersUntouched: sameold("F$render.trimWriter$buf") && sameold("F$render.trimWriter$trim")
 //@ ensures tree: @tree
 //@ method RenderFile
 //@ requires tag: intag(this)
 //@ assigns *
 //@ ensures noOutput: forall(x, "Val", !newbuf(x) && !is(x, *render.trimWriter) ==> wtotal(x) == old(wtotal(x)))
-//@ ensures buffersUntouched: sameold("F$render.trimWriter$buf") && sameold("F$render.trimWriter$trim")
 //@ ensures tree: @tree
 //@ ensures one: result1 != nil ==> result0 == ""
 //@ method Evaluate
@@ -71,7 +69,7 @@ package render
 //@ names w ctx
 //@ requires args: w != nil && ctx != nil
 //@ assigns *
-//@ ensures onlyw: forall(x, "Val", x != w && x != wsink(w) && !newbuf(x) ==> wtotal(x) == old(wtotal(x)))
+//@ ensures onlyw: forall(x, "Val", x != w && x != wsink(w) && !newbuf(x) && !is(x, *render.trimWriter) ==> wtotal(x) == old(wtotal(x)))
 //@ ensures tree: @tree
 
 // ---- trimWriter (C13, C20, C05) ------------------------------------------------------
@@ -275,7 +273,7 @@ package render
 //@ requires args: valid(arg0) && valid(arg1)
 //@ assigns *
 //@ ensures sink: valid(arg0) && arg0.w == old(arg0.w)
-//@ ensures onlyw: forall(x, "Val", x != arg0.w && x != box(arg0, *render.trimWriter) && !newbuf(x) ==> wtotal(x) == old(wtotal(x)))
+//@ ensures onlyw: forall(x, "Val", x != arg0.w && !newbuf(x) && !is(x, *render.trimWriter) ==> wtotal(x) == old(wtotal(x)))
 //@ ensures tree: @tree
 
 //@ func (*render.TextNode).render
@@ -300,7 +298,7 @@ package render
 //@ at call WriteString #1: count = count + 1
 //@ at call WriteString #1: werr = result1
 //@ loop 1 invariant progress: count == _i && werr == nil && valid(w) && w.w == old(w.w)
-//@ loop 1 invariant onlyw: forall(x, "Val", x != w.w && x != box(w, *render.trimWriter) && !newbuf(x) ==> wtotal(x) == old(wtotal(x)))
+//@ loop 1 invariant onlyw: forall(x, "Val", x != w.w && !newbuf(x) && !is(x, *render.trimWriter) ==> wtotal(x) == old(wtotal(x)))
 //@ loop 1 invariant tree: @tree
 //@ ensures all: result == nil ==> count == old(len(n.slices))
 //@ ensures reported: werr != nil ==> result != nil
@@ -331,7 +329,7 @@ package render
 //@ at call render #1: count = count + 1
 //@ at call render #1: cerr = result
 //@ loop 1 invariant progress: count == _i && cerr == nil && valid(w) && w.w == old(w.w)
-//@ loop 1 invariant onlyw: forall(x, "Val", x != w.w && x != box(w, *render.trimWriter) && !newbuf(x) ==> wtotal(x) == old(wtotal(x)))
+//@ loop 1 invariant onlyw: forall(x, "Val", x != w.w && !newbuf(x) && !is(x, *render.trimWriter) ==> wtotal(x) == old(wtotal(x)))
 //@ loop 1 invariant tree: @tree
 //@ ensures all: result == nil ==> count == old(len(n.Children))
 //@ ensures firstError: cerr != nil ==> result == cerr
@@ -381,7 +379,6 @@ package render
 //@ ensures ok: nerr == nil && ferr == nil ==> result == nil
 //@ ensures onlyw: forall(x, "Val", x != w && !newbuf(x) && !is(x, *render.trimWriter) ==> wtotal(x) == old(wtotal(x)))
 //@ ensures tree: @tree
-//@ ensures buffersUntouched: sameold("F$render.trimWriter$buf") && sameold("F$render.trimWriter$trim")
 
 // ---- include: RenderFile (C14) ---------------------------------------------------------
 // Disk wins over the cache; the included source is compiled with the INCLUDING tag's
